@@ -300,7 +300,7 @@ func Run(prop string) {
 		readPacketCases(r)
 		concurrentWriters(r)
 		order := []string{"faithful", "dup-reorder", "bitflip", "reflect-cross", "control", "mixed"}
-		n := hv.Scale(900, 12000)
+		n := hv.Scale(720, 12000)
 		for k := 0; k < n; k++ {
 			runCase(r, prop, order[k%len(order)], idx)
 			idx++
@@ -308,7 +308,7 @@ func Run(prop string) {
 	} else {
 		r = hv.NewRand(hv.Seed() ^ 0xC15)
 		order := []string{"roam", "roam", "mixed", "control", "dup-reorder"}
-		n := hv.Scale(600, 8000)
+		n := hv.Scale(500, 8000)
 		for k := 0; k < n; k++ {
 			runCase(r, prop, order[k%len(order)], idx)
 			idx++
